@@ -133,6 +133,17 @@ def check_model(model, soft, key, acc, db, deep=True):
             if anc in db and not m(anc):
                 acc.violation("C18/hierarchy-not-prefix-closed", "a specific hardware family is true while its ancestor is not",
                               dict(w, true=k, false_ancestor=anc))
+    # (a') the same for the short names (aliases such as hw.SN.SN5400 for hw.PC.Whitebox.NVIDIA.SN.SN5400): a true name whose parent
+    # name exists must have a true parent (an ambiguous short name exists for no model at all, which is fine)
+    from annet.annlib.netdev.devdb import parse_hw_model
+    tseq, fseq = parse_hw_model(model)
+    fset = set(fseq)
+    for sq in tseq:
+        acc.count("alias_names_checked")
+        if len(sq) >= 2 and tuple(sq[:-1]) in fset:
+            acc.violation("C18/hierarchy-not-prefix-closed", "a specific hardware family is true while its ancestor is not",
+                          dict(w, true=".".join(sq), false_ancestor=".".join(sq[:-1]), alias=True))
+            break
     # (b) vendor resolution independent of registration order, most specific wins
     reg = registry_connector.get()
     classes = [type(v) for v in reg.vendors.values()]
